@@ -7,8 +7,10 @@ package store
 
 import (
 	"fmt"
+	"reflect"
 	"regexp"
 	"strings"
+	"time"
 
 	qsql "github.com/metrico/qryn/ctrl/qryn/sql"
 	"verif/harness/chsql"
@@ -213,7 +215,7 @@ func (st *Store) Insert(table string, cols []string, rows [][]any) error {
 		fr := make([]any, len(tcols))
 		for i, c := range tcols {
 			if j, ok := idx[c.Name]; ok {
-				fr[i] = row[j]
+				fr[i] = norm(row[j])
 			} else {
 				fr[i] = chsql.DefaultOf(c.Type)
 			}
@@ -245,6 +247,36 @@ func (st *Store) Insert(table string, cols []string, rows [][]any) error {
 		}
 	}
 	return nil
+}
+
+// norm turns Go structs (the writer's tuple element types such as model.StrStr) into chsql tuples, slices of them into arrays.
+func norm(v any) any {
+	if v == nil {
+		return nil
+	}
+	switch v.(type) {
+	case string, []byte, time.Time, chsql.Tuple, []any:
+		return v
+	}
+	rv := reflect.ValueOf(v)
+	switch rv.Kind() {
+	case reflect.Struct:
+		t := make(chsql.Tuple, rv.NumField())
+		for i := 0; i < rv.NumField(); i++ {
+			t[i] = norm(rv.Field(i).Interface())
+		}
+		return t
+	case reflect.Slice:
+		if rv.Type().Elem().Kind() == reflect.Uint8 {
+			return v
+		}
+		a := make([]any, rv.Len())
+		for i := range a {
+			a[i] = norm(rv.Index(i).Interface())
+		}
+		return a
+	}
+	return v
 }
 
 // ApplyBlock inserts a block captured by the fake ClickHouse client.
